@@ -45,7 +45,12 @@ theorem anyDirOKA_of (P : WAnyPA) (h : anyOKA P.toAny = true) : anyDirOKA P := b
     (`write_blackbox = True`): the text the writer produces — top module, then every other definition in the order
     `_compose` visits them, nothing for the assignment definitions — is accepted by the whole reader (`lexV`, `parseV`,
     `elabDesign`), the netlist's top is elected, and EVERY module shows the view `viewTA` of its definition (`viewT` with
-    the assignment instances first): the top and every other work module, every primitive its interface. -/
+    the assignment instances first) and its module parameters as written: the top and every other work module; every
+    primitive its interface, attributes and parameters.  Admitted: assignment instances, `#(parameter k = v)` headers
+    (plain and `[l:r] name` keys), primitives with attributes / parameters, inferred black boxes whose ports have no
+    direction (written `/* undefined port direction */ inout`, re-read INOUT: `ifaceT` reads "undefined" as `inout`).
+    Outside: header alias ports, `M u ();`, `#()`, a second instance of a not-yet-declared module with another row shape,
+    assignment instances whose names are not the reader's.  How to read the conclusion: see `c04_view_hierA`. -/
 theorem c04_text_hierA (n : Text.WNet) (T : Text.WDef) (kT : Nat) (ks : List Nat) (hT : n.defs.getD kT default = T)
     (h : fragStructHA n T kT ks = true) :
     ∃ text fin s, Text.composeV n optsBB = .ok (text, fin) ∧ Parse.readV text = .ok s ∧ s.top = some T.name ∧
